@@ -276,7 +276,7 @@ def run(ctx):
                 '0, 1, some, all fits; with/without additional dictionaries; inputs as file, one object, list. a case = one writer call; non-trivial = >=2 selected fits')
     ctx.assume('printed precision: %10.3e -> 5e-4 relative, %10.3f -> 5e-4 absolute', 'selectors whose threshold equals an attained value are skipped (C05 don\'t-care)',
                'parameter values are position-encoding: (model+1)*10^column, so any row mix-up is visible at printed precision')
-    ctx.require_events('FitInfo.filter_table:post', 'text:write_parameters', 'text:write_parameter_ranges', 'text:extract_parameters', 'plot_params:observed', 'history:other-package-fitted-in-between', 'listing:results-already-cut-down')
+    ctx.require_events('writers:called-with-positional-arguments', 'FitInfo.filter_table:post', 'text:write_parameters', 'text:write_parameter_ranges', 'text:extract_parameters', 'plot_params:observed', 'history:other-package-fitted-in-between', 'listing:results-already-cut-down')
     ctx.require_regimes('additional:values-exactly-zero', 'additional:ints-and-floats', 'perm:identity', 'perm:reversed', 'perm:random', 'perm:name-sorted', 'selected:0', 'selected:1', 'selected:all', 'additional', 'additional:several', 'parameter:nan', 'extract:subset',
                         'input:file', 'input:object', 'input:list')
     n_pk = 8 if ctx.quick else 40
@@ -380,12 +380,19 @@ def run(ctx):
                         ctx.regime('selected:0' if c_ == 0 else ('selected:1' if c_ == 1 else ('selected:all' if c_ == n_models else 'selected:some')))
                 out = os.path.join(d, 'o_%d_%s' % (isel, form))
                 try:
-                    write_parameters(inp, out + '.wp', select_format=sel, additional=additional)
+                    if (isel + ip) % 2:
+                        write_parameters(inp, out + '.wp', select_format=sel, additional=additional)
+                    else:          # positional, in the documented order
+                        write_parameters(inp, out + '.wp', sel, additional)
+                        ctx.event('writers:called-with-positional-arguments')
                     check_write_parameters(ctx, open(out + '.wp').read(), rr, sel, truth, additional, dict(wit, writer='write_parameters'))
                 except Exception as exc:
                     ctx.raised(exc, 'write_parameters:raised:%s' % type(exc).__name__, 'write_parameters raised: %r' % (exc,), wit)
                 try:
-                    write_parameter_ranges(inp, out + '.wr', select_format=sel, additional=additional)
+                    if (isel + ip) % 2:
+                        write_parameter_ranges(inp, out + '.wr', select_format=sel, additional=additional)
+                    else:
+                        write_parameter_ranges(inp, out + '.wr', sel, additional)
                     check_ranges(ctx, open(out + '.wr').read(), rr, sel, truth, additional, dict(wit, writer='write_parameter_ranges'))
                 except Exception as exc:
                     ctx.raised(exc, 'write_parameter_ranges:raised:%s' % type(exc).__name__, 'write_parameter_ranges raised: %r' % (exc,), wit)
